@@ -62,3 +62,41 @@ Proof.
     destruct (cyc_ltb x (fst b) (fst p)); discriminate. }
   intro E. destruct (fold_left (best x) t (Some a)) eqn:E2; [discriminate|]. exfalso. eapply H; [|exact E2]. discriminate.
 Qed.
+
+(* ---- checkers on keys / nodes as Go values ---- *)
+Lemma repr_eqb_sound k o : repr_eqb (repr k) o = true -> o = Some (text_of k).
+Proof.
+  rewrite (repr_text k). destruct o as [b|]; simpl; [|discriminate]. intro H. apply String.eqb_eq in H. congruence.
+Qed.
+
+Lemma optnat_eqb_eq a b : optnat_eqb a b = true -> a = b.
+Proof.
+  destruct a, b; simpl; try discriminate; try reflexivity. intro H. apply Nat.eqb_eq in H. congruence.
+Qed.
+
+(* same_text_row is sound for c13_lookup_same_text on one row of observations *)
+Lemma same_text_row_sound ks : forall row seen, same_text_row ks row seen = true ->
+  (forall k o o', In (k, o) (combine ks row) -> alookup String.eqb (text_of k) seen = Some o' -> o = o') /\
+  (forall k1 o1 k2 o2, In (k1, o1) (combine ks row) -> In (k2, o2) (combine ks row) ->
+     text_of k1 = text_of k2 -> o1 = o2).
+Proof.
+  induction ks as [|k ks IH]; intros [|ob row] seen H; simpl; try (split; intros; tauto).
+  simpl in H. destruct (alookup String.eqb (text_of k) seen) as [ob'|] eqn:E.
+  - apply andb_true_iff in H as [H1 H2]. apply optnat_eqb_eq in H1. subst ob'.
+    destruct (IH _ _ H2) as [A B]. split.
+    + intros k0 o o' [Heq|Hin] Hl; [inversion Heq; subst; congruence | eapply A; eauto].
+    + intros k1 o1 k2 o2 [H1|H1] [H3|H3] Ht; try (inversion H1; subst); try (inversion H3; subst).
+      * reflexivity.
+      * symmetry. eapply A; eauto. rewrite <- Ht. assumption.
+      * eapply A; eauto. rewrite Ht. assumption.
+      * eapply B; eauto.
+  - destruct (IH _ _ H) as [A B]. split.
+    + intros k0 o o' [Heq|Hin] Hl; [inversion Heq; subst; congruence|].
+      eapply A; eauto. simpl. destruct (String.eqb (text_of k0) (text_of k)) eqn:E2; [|assumption].
+      apply String.eqb_eq in E2. rewrite E2 in Hl. congruence.
+    + intros k1 o1 k2 o2 [H1|H1] [H3|H3] Ht; try (inversion H1; subst); try (inversion H3; subst).
+      * reflexivity.
+      * symmetry. eapply A; eauto. simpl. rewrite <- Ht, String.eqb_refl. reflexivity.
+      * eapply A; eauto. simpl. rewrite Ht, String.eqb_refl. reflexivity.
+      * eapply B; eauto.
+Qed.
